@@ -81,22 +81,41 @@ def dnf_simplify(d, cap=48):
 
 
 def dnf_implies(A, B, budget=4000):
-    """every disjunct of A implies the disjunction B: a and not B is contradictory (not B = one negated literal from every disjunct of B)"""
-    B = [sorted(b, key=repr) for b in B]
+    """every disjunct of A implies the disjunction B: a and not B is contradictory (not B = one negated literal from every disjunct of B).  The search
+    picks, at every step, the disjunct of B that the literals chosen so far leave the fewest ways to falsify (a disjunct that is already falsified costs
+    nothing, one whose literals all hold closes the branch)."""
+    B = [frozenset(b) for b in B]
     n = [0]
+    negs = {}
 
-    def refute(S, i):
+    def neg(l):
+        r = negs.get(l)
+        if r is None:
+            r = negs[l] = neg_lit(l)
+        return r
+
+    def refute(S, rest):
         n[0] += 1
         if n[0] > budget:
             return False
         if conj_unsat(S):
             return True
-        if i == len(B):
+        best = None
+        keep = []
+        for b in rest:
+            if any(neg(l) in S for l in b):
+                continue            # already falsified by the choices made
+            opn = [l for l in b if l not in S]
+            if not opn:
+                return True         # b holds under S: S and not B is contradictory
+            keep.append(b)
+            if best is None or len(opn) < len(best[1]):
+                best = (b, opn)
+        if best is None:
             return False
-        return all(refute(S | {neg_lit(l)}, i + 1) for l in B[i])
-    return all(refute(frozenset(a), 0) for a in A)
-
-
+        rest2 = [b for b in keep if b is not best[0]]
+        return all(refute(S | {neg(l)}, rest2) for l in sorted(best[1], key=repr))
+    return all(refute(frozenset(a), B) for a in A)
 
 
 def guard_dnf(guards):
